@@ -35,7 +35,10 @@ MemberKinds ==
       ps \in {<<>>, <<P("long", "id", FALSE)>>}} \cup
   {Handler("GetMapping", "GET", f, IF f = "none" THEN "" ELSE "/x", ps) : f \in {"short", "value", "none"}, ps \in ParamLists} \cup
   {Handler("DeleteMapping", "DELETE", "short", "/{id}", ps) : ps \in ParamLists} \cup
-  {Handler("RequestMapping", "POST", f, IF f = "none" THEN "" ELSE "/y", ps) : f \in {"value", "none"}, ps \in ParamLists}
+  {Handler("RequestMapping", "POST", f, IF f = "none" THEN "" ELSE "/y", ps) : f \in {"value", "none"}, ps \in ParamLists} \cup
+  \* a mapping that names no verb at all (@RequestMapping("/z")): the entry has no verb - in particular not the verb of
+  \* the handler before it
+  {Handler("RequestMapping", "", "short", "/z", ps) : ps \in {<<>>, <<P("long", "id", FALSE)>>}}
 MemberSeqs == UNION {[1..n -> MemberKinds] : n \in 0..MaxMembers}
 \* members get distinct names by position
 Named(ms) == [i \in DOMAIN ms |-> [ms[i] EXCEPT !.name = <<"m1", "m2", "m3">>[i]]]
